@@ -1,4 +1,5 @@
 import DustVerif.Model.Match
+import DustVerif.Model.Partition
 import DustVerif.Driver.Util
 namespace DustVerif.Driver.MatchEngine
 open DustVerif.Match DustVerif.Driver
@@ -109,6 +110,10 @@ def step (line : String) : String :=
     match endQos? a, endQos? b with
     | some w, some r => s!"W:{showPolicies (writerSideIncompat w r)} R:{showPolicies (readerSideIncompat w r)}"
     | _, _ => "bad-op"
+  | ["glob", pat, name] =>
+    let e := fun (x : String) => if x == "%e" then [] else x.toList
+    if DustVerif.Partition.supported (e pat) then (if DustVerif.Partition.globMatch (e pat) (e name) then "1" else "0")
+    else "bad-op"
   | "wcons" :: rest => match entQos? rest with
     | some q => if writerConsistent q then "ok" else "InconsistentPolicy"
     | none => "bad-op"
